@@ -28,6 +28,7 @@ pub static DEF: PropertyDef = PropertyDef {
     timeout_s: 30,
     hang_class: None,
     sub_builds: &[],
+    stack_mb: 64,
 };
 
 fn generate(corpus: &Corpus, tier: Tier, run: u64, rng: &mut Rng) -> Option<Case> {
